@@ -1273,6 +1273,8 @@ class Engine:
             return v
         if isinstance(v, VOpaque):
             return VOpaque(v.what)
+        if isinstance(v, VObj) and v.cls in self.classmodels:
+            return self.fresh_obj(name, v.cls)        # some object of the declared class (its class invariant holds)
         if isinstance(v, VSink):
             v.trace = self.fresh(name + '_trace', specs.CSeq)
             return v
@@ -3084,6 +3086,19 @@ class Engine:
             return False
         lhs, rhs = node.left, node.comparators[0]
         ltxt = ast.unparse(lhs)
+        if isinstance(lhs, ast.Call) and isinstance(lhs.func, ast.Name) and lhs.func.id == 'olast' and len(lhs.args) == 1 \
+                and ast.unparse(lhs.args[0]) in targets:
+            # `olast(L) == x` for a just-havoced counted list: x is its last element
+            saved = getattr(self, 'in_spec', False)
+            self.in_spec = True
+            try:
+                lst, v = self.eval(lhs.args[0], env), self.eval(rhs, env)
+            finally:
+                self.in_spec = saved
+            if isinstance(lst, VCounted):
+                lst.last = v
+                return True
+            return False
         if ltxt not in targets:
             return False
         # X must not occur un-old'ed on the right
@@ -3110,6 +3125,8 @@ class Engine:
                     return False
                 self.pc.append(cur.term == v.term)      # facts already stated about the havoced symbol stay valid
                 cur.term = v.term
+            elif isinstance(v, VObj) and isinstance(cur, VObj):
+                o.fields[lhs.attr] = v            # `self.G == G` for a just-havoced object field: the field refers to that very object
             elif isinstance(v, (VSeq, VMList, VTuple, VObj, VArr, VTerms, VCon)):
                 return False
             else:
@@ -3145,6 +3162,12 @@ class Engine:
         o = VObj(cname)
         model = self.classmodels.get(cname, {'fields': {}})
         for f, ty in model['fields'].items():
+            if ty.startswith('range:'):
+                _, lo, hi = ty.split(':')
+                o.fields[lo] = self.fresh('{}.{}'.format(cname, lo))
+                o.fields[hi] = self.fresh('{}.{}'.format(cname, hi))
+                o.fields[f] = VRange(o.fields[lo], o.fields[hi], 1)
+                continue
             o.fields[f] = self.fresh_of_type('{}.{}'.format(cname, f), ty)
         fnode = hit[2] if hit else ast.parse('def __init__(self, *args, **kw): pass').body[0]
         self.call_contract(key, c, fnode, args, kw, node, o)
